@@ -24,7 +24,7 @@ PROP = {
                   "querylog.json(.1), the stats API (totals, per-domain, per-client) and the raw bytes of stats.db "
                   "with the expectation: ignored => absent everywhere, not ignored => present exactly once; with "
                   "anonymisation on every address anywhere has its last 16/80 bits zero."
-                  " Configurations may hold overlapping CIDR clients (the most specific owns an address), queries may carry a ClientID no client is registered for, and after the flush a client may be marked ignore-querylog: the log API must then hide exactly its entries (only judged without anonymisation; with it, entries whose masked address falls under a currently ignored identifier are not asserted at the API level).",
+                  " Configurations may hold overlapping CIDR clients (the most specific owns an address), queries may carry a ClientID no client is registered for, and after the flush a client may be marked ignore-querylog: the log API must then hide exactly its entries (only judged without anonymisation; with it, entries whose masked address falls under a currently ignored identifier are not asserted at the API level). Names and clients can also be ignored 'for a while' or only after records were taken: records still in the memory buffer must then be hidden exactly like the ones in the files. The part 'home_adapters' runs home's ShouldLog/ShouldCount adapters (shouldLogClient, shouldCountClient) against a real registry including clients identified by zoned link-local addresses, which dnsforward reports without their zone.",
     "level_note": "The two adapter functions of internal/home/clients.go (findMultiple, shouldCountClient) cannot be "
                   "imported into dnsforward; the server part restates them (FindLoose / Find over the real storage) and "
                   "the home_adapters part checks the real ones against the same ownership model. Wildcard rules on "
